@@ -17,18 +17,20 @@ Definition worstcase_sufficient_full : Prop :=
 
 Definition adv_image : list (list Z) := repeat adv_block 256.    (* 128 x 128, the block tiled *)
 
-Lemma adv_image_facts :
-  Z.of_nat (length adv_image) = (PAD 128 8 / 8) * (PAD 128 8 / 8) /\
-  forallb valid_block adv_image = true /\
-  scan_size adv_image = Some (36355, 253962) /\
-  tj3JPEGBufSize 128 128 tjsamp_gray = 34816.
-Proof. vm_compute. repeat split. Qed.
+Lemma adv_fact_len : Z.of_nat (length adv_image) = (PAD 128 8 / 8) * (PAD 128 8 / 8).
+Proof. vm_compute. reflexivity. Qed.
+Lemma adv_fact_valid : forallb valid_block adv_image = true.
+Proof. vm_compute. reflexivity. Qed.
+Lemma adv_fact_size : scan_size adv_image = Some (36355, 253962).
+Proof. vm_compute. reflexivity. Qed.
+Lemma adv_fact_buf : tj3JPEGBufSize 128 128 tjsamp_gray = 34816.
+Proof. vm_compute. reflexivity. Qed.
 
 Theorem worstcase_refuted : ~ worstcase_sufficient_full.
 Proof.
-  intros H. destruct adv_image_facts as (A & B & C & D).
-  specialize (H 128 128 adv_image 36355 eq_refl eq_refl A B).
-  unfold scan_bytes in H. rewrite C, D in H. specialize (H eq_refl). apply H. reflexivity.
+  intros H.
+  specialize (H 128 128 adv_image 36355 eq_refl eq_refl adv_fact_len adv_fact_valid).
+  unfold scan_bytes in H. rewrite adv_fact_size, adv_fact_buf in H. specialize (H eq_refl). apply H. reflexivity.
 Qed.
 
 (* the same as an explicit witness *)
@@ -36,8 +38,9 @@ Theorem worstcase_witness : exists w h blocks bytes,
   Z.of_nat (length blocks) = (PAD w 8 / 8) * (PAD h 8 / 8) /\ forallb valid_block blocks = true /\
   scan_bytes blocks = Some bytes /\ tj3JPEGBufSize w h tjsamp_gray < bytes.
 Proof.
-  exists 128, 128, adv_image, 36355. destruct adv_image_facts as (A & B & C & D).
-  split; [exact A|]. split; [exact B|]. split; [unfold scan_bytes; rewrite C; reflexivity|]. rewrite D. reflexivity.
+  exists 128, 128, adv_image, 36355.
+  split; [exact adv_fact_len|]. split; [exact adv_fact_valid|].
+  split; [unfold scan_bytes; rewrite adv_fact_size; reflexivity|]. rewrite adv_fact_buf. reflexivity.
 Qed.
 
 (* PAD is rounding up to a multiple of the (power of two) MCU size *)
